@@ -807,6 +807,184 @@ def plan_C17(prop, tier):
     return rep
 
 
+def plan_C08(prop, tier):
+    """Constant evaluation: every edge of (small) run-time state graphs is replayed by the constant
+    evaluators of g++ and clang++ and compared with the run-time result of the same function."""
+    import re
+    import cegen
+    outdir = os.path.join(svlib.OUT, prop)
+    os.makedirs(outdir, exist_ok=True)
+    w1b = {"S": 4, "K": 3, "L": 3, "R": 8} if tier == "quick" else {"S": 5, "K": 4, "L": 4, "R": 10}
+    w2b = {"S": 2, "R": 5} if tier == "quick" else {"S": 3, "R": 6}
+    ns = (0, 1, 2, 3)
+    pairs = ((0, 0), (2, 2), (0, 2), (2, 0), (1, 3), (3, 1)) if tier == "quick" else tuple((a, b) for a in ns for b in ns)
+    stds = [("g++", "20"), ("clang++", "20")] if tier == "quick" else [("g++", "20"), ("g++", "2b"), ("clang++", "20"), ("clang++", "2b")]
+    jobs, meta = [], []
+    for n in ns:
+        b = w1bin("NM", n, 0)
+        tf = os.path.join(outdir, "traces-w1-N%d.txt" % n)
+        jobs.append(Job("emit-" + b.name, b, ["--S", w1b["S"], "--K", w1b["K"], "--L", w1b["L"], "--R", w1b["R"], "--faults", 0,
+                                              "--focus", G_ALL & ~G_OBS, "--emit-traces", tf, "--deadline", 600]))
+        meta.append((tf, n, None))
+    for (n, m) in pairs:
+        b = w2bin("NM", n, m, -1)
+        tf = os.path.join(outdir, "traces-w2-N%dxM%d.txt" % (n, m))
+        jobs.append(Job("emit-" + b.name, b, ["--S", w2b["S"], "--R", w2b["R"], "--faults", 0, "--focus", G_ALL,
+                                              "--emit-traces", tf, "--deadline", 600]))
+        meta.append((tf, n, m))
+    rep = run_svmc(prop, tier, jobs)
+    if rep.get("harness_errors"):
+        return rep
+    if BUILD_ONLY:
+        # the trace set depends on the header; only the emitters can be pre-built
+        return {}
+    plan = []     # (Bin, chunk, elem, n, m)
+    total = 0
+    samples = []
+    for (tf, n, m) in meta:
+        traces = cegen.read_traces(tf)
+        total += len(traces)
+        if traces and len(samples) < 6:
+            samples.append({"N": n, "M": m, "trace": " ".join(":".join(str(x) for x in t) for t in traces[len(traces) // 2])})
+        for elem, ename in (("int", "int"), ("ce::NT", "nt")):
+            tag = "w1n%d" % n if m is None else "w2n%dm%d" % (n, m)
+            for si, (src, chunk) in enumerate(cegen.sources(traces, elem, n, m, tag)):
+                for (c, sd) in stds:
+                    extra = ["-fconstexpr-steps=200000000"] if c == "clang++" else ["-fconstexpr-ops-limit=2000000000", "-fconstexpr-loop-limit=10000000"]
+                    plan.append((Bin("ce-%s-%s-%03d-%s-std%s" % (tag, ename, si, c.replace("+", "p"), sd), src, std=sd, cxx=c, opt="-O0", extra=extra),
+                                 chunk, elem, n, m))
+    fails = svlib.build_all([p[0] for p in plan])
+    failed = {b.path(): log for b, log in fails}
+    viol = []
+    evaluated = 0
+    runnable = []
+    for (b, chunk, elem, n, m) in plan:
+        if b.path() not in failed:
+            runnable.append((b, chunk, elem, n, m))
+            continue
+        log = failed[b.path()]
+        ks = set(int(x) for x in re.findall(r"::t(\d+)\)", log)) | set(int(x) for x in re.findall(r"'d(\d+)'", log))
+        ks = sorted(k for k in ks if k < len(chunk))
+        if not ks:
+            viol.append({"oracle": "ce.tu-does-not-compile", "op": "translation unit", "detail": first_error(log),
+                         "config": b.name, "count": 1, "desc": b.name,
+                         "replay": {"kind": "compile", "binary": bin_spec(b)}})
+            continue
+        for k in ks[:5]:
+            single = cegen.sources([chunk[k]], elem, n, m, "single")[0][0]
+            sb = Bin("ce-single-%s" % svlib.sha(single)[:10], single, std=b.std, cxx=b.cxx, opt="-O0", extra=b.extra)
+            diag = [ln.strip() for ln in log.splitlines() if "error" in ln][:2]
+            tr = " ".join(":".join(str(x) for x in t) for t in chunk[k])
+            viol.append({"oracle": "ce.not-a-constant-expression", "op": "%s N=%s M=%s" % (elem, n, m),
+                         "detail": "%s -std=c++%s rejects the constant evaluation of trace [%s] (%s): %s" % (
+                             b.cxx, b.std, tr, describe_trace(chunk[k]), " | ".join(diag)[:400]),
+                         "config": b.name, "count": len(ks), "desc": describe_trace(chunk[k]),
+                         "replay": {"kind": "compile", "binary": bin_spec(sb)}})
+    res, errs = run_table_bins([(b, []) for (b, chunk, elem, n, m) in runnable])
+    if errs:
+        return {"harness_errors": errs}
+    bychunk = {b.path(): (chunk, elem, n, m) for (b, chunk, elem, n, m) in runnable}
+    for b, args, j, out in res:
+        evaluated += j["traces"]
+        if j["mismatches"]:
+            chunk, elem, n, m = bychunk[b.path()]
+            k = j["first"]
+            single = cegen.sources([chunk[k]], elem, n, m, "single")[0][0]
+            sb = Bin("ce-single-%s" % svlib.sha(single)[:10], single, std=b.std, cxx=b.cxx, opt="-O0", extra=b.extra)
+            viol.append({"oracle": "ce.differs-from-run-time", "op": "%s N=%s M=%s" % (elem, n, m),
+                         "detail": "%s -std=c++%s: constant evaluation and run-time execution of trace [%s] give different sizes/values/returns/capacities" % (
+                             b.cxx, b.std, describe_trace(chunk[k])),
+                         "config": b.name, "count": j["mismatches"], "desc": describe_trace(chunk[k]),
+                         "replay": {"kind": "table", "binary": bin_spec(sb), "args": []}})
+    cov = rep["coverage"]
+    cov["states"] = max(1, cov["states"])
+    cov["transitions"] = total
+    cov["traces_validated_against_impl"] = evaluated
+    cov["constant_evaluation"] = {"edges_replayed": total, "element_types": ["int", "NT (literal class owning a new int)"],
+                                  "compilers": ["%s -std=c++%s" % cs for cs in stds], "compile_time_evaluations": evaluated,
+                                  "translation_units": len(plan), "translation_units_rejected": len(failed)}
+    cov["samples"] = samples + cov["samples"][:3]
+    cov["rule"] = ("model = run-time state graph (explicit-state BFS, std::allocator, N in {0,1,2,3}, pairs of capacities); every fault-free edge "
+                   "(witness history + operation) is re-executed by the constant evaluators of g++ and clang++ (the evaluator rejects UB, out-of-lifetime "
+                   "access, leaks) and its digest compared with the run-time digest of the same function")
+    rep["violations"] = viol
+    rep["others"] = {}
+    rep["assumptions"] = ["exceptions cannot be injected in constant evaluation: fault-free edges only",
+                          "allocator is std::allocator", "traces use the iterator kinds the constexpr interpreter implements (input, forward, pointer, small_vector iterator, move_iterator over forward/pointer)",
+                          "bounds: " + json.dumps({"W1": w1b, "W2": w2b})]
+    rep["summary"] = "%d edges x %d element types x %d compilers = %d constant evaluations in %d translation units" % (
+        total, 2, len(stds), evaluated, len(plan))
+    return rep
+
+
+def describe_trace(tr):
+    import re
+    names = []
+    for (k, p, n, i, it) in tr:
+        names.append("%d:%d:%d:%d:%d" % (k, p, n, i, it))
+    return " ".join(names)
+
+
+def gdb_session(b, S):
+    env = dict(os.environ)
+    env["SVMC_SUPPORT_PYTHON"] = os.path.join(svlib.REPO, "source/support/python")
+    r = subprocess.run(["gdb", "-q", "-batch", "-nx", "-x", os.path.join(svlib.VERIF, "tools/gdb_check.py"), "--args", b.path(), str(S)],
+                       stdout=subprocess.PIPE, stderr=subprocess.STDOUT, text=True, env=env, timeout=1800)
+    g = prog = None
+    for ln in r.stdout.splitlines():
+        if ln.startswith("GDBRESULT "):
+            g = json.loads(ln[len("GDBRESULT "):])
+        elif ln.startswith('{"states"'):
+            prog = json.loads(ln)
+    return g, prog, r.stdout
+
+
+def plan_C20(prop, tier):
+    import grids
+    hdr, exprs, missing = grids.natvis_header()
+    S = 5 if tier == "quick" else 8
+    viol = []
+    if missing:
+        viol.append({"oracle": "natvis.items-missing", "op": "natvis", "detail": "the natvis file no longer defines: " + ", ".join(missing),
+                     "config": "small_vector.natvis", "count": len(missing), "desc": ", ".join(missing), "replay": {"kind": "none"}})
+    b = Bin("gdbdrv", "gdbdrv_main.cpp", std="17", opt="-O0", extra=["-g", "-fno-access-control", "-I" + os.path.dirname(hdr)])
+    b.flags = (lambda f=b.flags: [x for x in f() if x != "-g0"])
+    ok, log = b.build()
+    if BUILD_ONLY:
+        return {} if ok or "NATVIS" in log or "natvis" in log else {"harness_errors": [log]}
+    if not ok:
+        if "NATVIS_" in log or "natvis_paths" in log or "has no member" in log:
+            viol.append({"oracle": "natvis.path-does-not-resolve", "op": "natvis",
+                         "detail": "a member path used by small_vector.natvis does not resolve against the header: " + first_error(log),
+                         "config": "small_vector.natvis", "count": 1, "desc": first_error(log), "replay": {"kind": "compile", "binary": bin_spec(b)}})
+            cov = {"states": 1, "transitions": 1, "traces_validated_against_impl": 0, "samples": [exprs], "exhaustive": False}
+            return {"level": "model_checking", "coverage": cov, "violations": viol, "assumptions": [], "summary": "driver does not compile"}
+        return {"harness_errors": [log]}
+    g, prog, out = gdb_session(b, S)
+    if g is None or prog is None:
+        return {"harness_errors": ["gdb session produced no result:\n" + out[-3000:]]}
+    if g["stops"] != prog["stops"]:
+        return {"harness_errors": ["gdb saw %d stops, the driver made %d" % (g["stops"], prog["stops"])]}
+    if g["bad"]:
+        viol.append({"oracle": "gdb.printer-disagrees", "op": "pretty-printer", "detail": g["first"], "config": "gdb 13 + shipped printer",
+                     "count": g["bad"], "desc": g["first"], "replay": {"kind": "gdb", "binary": bin_spec(b), "S": S}})
+    if prog["natvis_bad"]:
+        viol.append({"oracle": "natvis.path-wrong-field", "op": "natvis", "detail": prog["natvis_first"], "config": "small_vector.natvis",
+                     "count": prog["natvis_bad"], "desc": prog["natvis_first"], "replay": {"kind": "gdb", "binary": bin_spec(b), "S": S}})
+    cov = {"states": prog["states"], "transitions": prog["states"], "traces_validated_against_impl": g["compared"],
+           "gdb_stops": g["stops"], "containers_compared": g["compared"], "iterators_compared": g["iter_compared"],
+           "natvis_path_evaluations": prog["natvis_checks"], "natvis_expressions": exprs, "printer_loaded": g["printer_loaded"],
+           "samples": ["state (size 3, capacity 4) of small_vector<std::string,2,IdAlloc>: printer to_string + children vs size()/capacity()/iteration",
+                       "iterator to element size()/2 and a value-initialised iterator in every state"],
+           "exhaustive": True,
+           "rule": "BFS over the generator alphabet (emplace_back, pop_back, reserve(r), shrink_to_fit, clear) to a fixpoint with size <= %d, for 7 (element type, N, allocator) configurations; each state is rebuilt on a fresh object and shown to GDB" % S}
+    return {"level": "model_checking", "coverage": cov, "violations": viol,
+            "assumptions": ["Visual Studio is not available: for the natvis file only the member paths (extracted from the XML) are evaluated, by a -fno-access-control translation unit, on every state",
+                            "gdb 13.1 with Python; g++ 12 debug info"],
+            "summary": "%d states shown to GDB (%d containers, %d iterators compared), %d natvis path evaluations" % (
+                prog["states"], g["compared"], g["iter_compared"], prog["natvis_checks"])}
+
+
 def plan_C18b_jobs(tier):
     fl = ("NM", "TM", "MO", "TR") if tier == "quick" else ("NM", "TM", "MO", "MOT", "CO", "TR", "INT")
     cfgs = grid(fl, W1_NS[tier], (1,)) + grid(("NM",), (0, 2), (0,))
@@ -816,7 +994,7 @@ def plan_C18b_jobs(tier):
 
 
 PLANS = {
-    "C07": plan_C07, "C09": plan_C09, "C12": plan_C12, "C13": plan_C13, "C14": plan_C14, "C16": plan_C16, "C17": plan_C17, "C18": plan_C18, "C19": plan_C19,
+    "C07": plan_C07, "C08": plan_C08, "C09": plan_C09, "C12": plan_C12, "C13": plan_C13, "C14": plan_C14, "C16": plan_C16, "C17": plan_C17, "C18": plan_C18, "C19": plan_C19, "C20": plan_C20,
     "C01": plan_C01, "C02": plan_C02, "C03": plan_C03, "C04": plan_C04, "C05": plan_C05,
     "C06": plan_C06, "C10": plan_C10, "C11": plan_C11, "C15": plan_C15,
 }
@@ -851,6 +1029,17 @@ def replay_other(payload):
                 return 1
         print("traces identical" if len(lines[0]) == len(lines[1]) else "trace lengths differ")
         return 0 if len(lines[0]) == len(lines[1]) else 1
+    if payload.get("kind") == "gdb":
+        b = Bin(**payload["binary"])
+        b.flags = (lambda f=b.flags: [x for x in f() if x != "-g0"])
+        ok, log = b.build()
+        if not ok:
+            print(log[-3000:])
+            return 1
+        g, prog, out = gdb_session(b, payload.get("S", 5))
+        print(json.dumps(g, indent=1))
+        print(json.dumps(prog, indent=1))
+        return 1 if (g and g["bad"]) or (prog and prog["natvis_bad"]) else 0
     if payload.get("kind") == "compile":
         b = Bin(**payload["binary"])
         ok, log = b.build()
